@@ -175,6 +175,10 @@ def core_pool():
     c.append(make([p('u8'), v('SelfRef')], tags={'nontrivial', 'lowalign', 'selfref'}))
     c.append(make([f('SelfRef'), p('u16')], tags={'nontrivial', 'selfref'}))
     c.append(make([p('SelfRef', 8), p('u8'), v('u16')], tags={'nontrivial', 'layout', 'alignedfirst', 'selfref'}))
+    # runs of byte-comparable fields around FixedSize / VaryingSize spans (what the comparison fast paths coalesce)
+    c.append(make([f('u8'), p('u8'), f('u8')], tags={'memcmp', 'lowalign'}))
+    c.append(make([f('u8'), p('u8'), v('u8')], tags={'memcmp', 'lowalign'}))
+    c.append(make([f('u16'), p('u16'), p('u16'), f('u16')], tags={'memcmp', 'lowalign'}))
     # alignment-inference chains (see random_list 'chain')
     c.append(make([p('u8'), v('u8'), p('u64'), v('u64'), p('u64', 8)], tags={'layout', 'chain'}))
     c.append(make([p('u64', 8), v('u8'), p('u64'), v('u64')], tags={'layout', 'chain', 'alignedfirst'}))
@@ -264,6 +268,21 @@ def random_list(rng, flavour):
                 else:
                     params.append(('p', rng.choice(COUNT_TYPES), 1))
                     params.append(('v', t, a))
+        elif flavour == 'bytes':
+            # unaligned lists of byte-comparable types only: equality / ordering may compare whole runs of fields (or
+            # whole elements / vectors) bytewise, so run boundaries around spans of run-time length matter
+            n = rng.randint(2, 5)
+            t0 = rng.choice(['u8', 'u8', 'char', 'u16', 'i8', 'bool', 'u32'])
+            for _ in range(n):
+                t = t0 if rng.random() < 0.7 else rng.choice(['u8', 'char', 'u16', 'i8', 'bool', 'u32', 'cptr'])
+                r = rng.random()
+                if r < 0.4:
+                    params.append(('p', t, 1))
+                elif r < 0.75:
+                    params.append(('f', t, 1))
+                else:
+                    params.append(('p', rng.choice(['u8', 'u16', 'u32']), 1))
+                    params.append(('v', t, 1))
         elif flavour == 'chain':
             # alignment-inference chains: an aligned head fixes the element alignment A, a run-time sized span of small
             # items lowers what is known about the address, parameters whose size is a multiple of A keep that
@@ -311,7 +330,7 @@ def random_list(rng, flavour):
             return params
 
 
-FLAVOURS = ['layout', 'fixedlayout', 'tracked', 'alignedfirst', 'layout', 'any', 'chain']
+FLAVOURS = ['layout', 'fixedlayout', 'tracked', 'alignedfirst', 'layout', 'any', 'chain', 'bytes']
 
 
 def random_pool(seed, count):
